@@ -13,7 +13,8 @@ CHECKS = {
             'up to the length bound (all argparse groupings) is evaluated on the real ignore_warnings_and_count and compared '
             'with the formula of the statement; every string up to length 5/6 over a 6-letter alphabet is fed to the real '
             '-maxwarn parser and compared with a reference grammar. Exhaustive within the bound; the function is pure, so the '
-            'small alphabet covers all branch combinations.',
+            'small alphabet covers all branch combinations. A CLI layer runs bin/martinize2 entry() over warning mixes x every '
+            '-maxwarn form (repeated and grouped flags) and checks the gate against the same formula.',
             'Counts above 3, more than 3 warning types and lists longer than the bound are not explored; the '
             'combination the property leaves unspecified is not generated.', '§4 C08'),
     'C17': ('B', 'bounded exhaustive enumeration of systems x sequences x selectors on the real processors vs. the documented reconciliation; all DSSP strings up to a length bound vs. a run-length reference model',
@@ -35,6 +36,18 @@ CHECKS = {
             'are checked relationally.',
             'Histories longer than the depth bound and molecules with more than ~10 atoms are not explored; implicit node creation through '
             'add_edge on an absent key and in-place mutation of shared parameter lists are outside the alphabet.', '§4 C12'),
+    'C07': ('A+D', 'explicit-state BFS over deferred-writer histories with a dict file-system model; exhaustive crash-point/torn-write enumeration of every finalisation; audit-hook monitor over all library writers; full product of a CLI run alphabet through the script\'s own entry() bound to real sub-processes',
+            'model_checking',
+            'Four layers. (1) every enabled operation (open w/a/r+/wb incl. re-opens, files appearing from outside, write, close) in every '
+            'reachable abstract state up to depth 3 (thorough 4) from 6 initial directories, real DeferredFileWriter vs. a dict model, '
+            'directory compared byte for byte after every step. (2) every history of <=2 (3) opens followed by write(): every file-system '
+            'step x {before, after, torn-0, torn-half} x {tmp on same fs, rename->EXDEV}; recovery invariant on the directory left behind. '
+            '(3) every library writer with default arguments under a sys.addaudithook monitor: nothing outside the temporary directory is '
+            'touched before write(). (4) the full product of inputs x warning switches x -maxwarn forms x outputs x -write-graph through '
+            'bin/martinize2 entry() in pre-populated directories; exit status and directory against the C08 formula; a covering subset '
+            'repeated as real sub-processes that must agree with the in-process runs.',
+            'Crash points are Python-visible file operations and torn copies (no kernel-level reordering); destinations that look like '
+            'backup names and mixed-mode re-opens are not generated; the CLI alphabet uses a 5-residue input and three warning sources.', '§4 C07'),
 }
 
 NOT_YET = 'check not built yet in this session (planned, see DESIGN.md §4); no claim is made'
